@@ -286,3 +286,5 @@ def run(ctx):
     boundaries.check_stream_new(ctx, 'C02.RN')
     from .. import boundaries as _b
     _b.check_predicates(ctx, 'C02.RP', 'C02')
+    from .. import boundaries as _b
+    _b.check_updates(ctx, 'C02.RU', 'C02')
